@@ -157,6 +157,21 @@ func bodyMutations(recompute bool) []mutation {
 			b.Body().SetTransactions(l)
 			return true
 		}),
+		bm("swap-adjacent-txs", func(b *types.WorkObject) bool {
+			// the first adjacent pair after position 0 whose swap breaks an ordering rule
+			l := txs(b)
+			if swapBreaksOrder == nil {
+				return false
+			}
+			for i := 1; i+1 < len(l); i++ {
+				if l[i].Hash() != l[i+1].Hash() && swapBreaksOrder(b, l[i], l[i+1]) {
+					l[i], l[i+1] = l[i+1], l[i]
+					b.Body().SetTransactions(l)
+					return true
+				}
+			}
+			return false
+		}),
 		bm("drop-inbound-etx", func(b *types.WorkObject) bool {
 			l := txs(b)
 			i := firstOfType(l, types.ExternalTxType)
